@@ -212,6 +212,6 @@ pub fn def() -> PropDef {
         level: "exploration",
         rule: "fault-free, single compactor: datasets of 1-15 (thorough 20) real chunks (1-6 rows, hour buckets 0-71 h old, one in four spanning two hour buckets, levels 0-3), configs l0_merge_threshold 1-4, level target sizes in {1 B, 1.5 KB, 6 KB, 1 GiB}, max_levels 1-4, both catalog back-ends; before each cycle the candidate groups of all levels must be pairwise disjoint and level-homogeneous; after each cycle rows are conserved, every new chunk is above the chunks whose rows it took over, every removed chunk is accounted for, no path's level decreased; within chunks x (max_levels+1) + 3 cycles two consecutive cycles leave the catalog unchanged. Non-trivial = a cycle published at least two merged chunks, or a chunk reached level >= 2, or at least 2 cycles changed the catalog before the fixpoint (on this code base one cycle cascades through all levels, so the last class is normally empty).",
         assumptions: &["bounded convergence: the fixpoint must be reached within the stated number of cycles", "one schema per dataset (groups that cannot be merged are C03's subject)"],
-        subs: || vec![Box::new(Sub::<Case> { name: "cycles", cases: |t| t.scale(6_000, 5), strategy, exec })],
+        subs: || vec![Box::new(Sub::<Case> { name: "cycles", cases: |t| t.scale(12_000, 4), strategy, exec })],
     }
 }
